@@ -325,6 +325,8 @@ def gen_file(rng, gcount, flavour):
             continue
         pt = rng.choice(["p", "p", "p", "g", "g", "p2", "g2"])
         rule = gen_rule(rng, pt, gcount, flavour != "plain")
+        if rng.random() < 0.12:          # '#' opens a comment only at the very start of a line: inside a field it is a character
+            rule[rng.randrange(len(rule))] = rng.choice(["#ops", "/docs#intro", "a#b", "#"])
         if flavour == "brackets" and rng.random() < 0.4:
             rule[rng.randrange(len(rule))] = rng.choice(["f(a,b)", "[alice,bob]", "(x)", "f(alice, data1)"])
         if flavour == "malformed" and rng.random() < 0.25:
